@@ -380,6 +380,21 @@ func writeEvidence(path, prop, tier string, seed int, units []*UnitResult, obls,
 	trusted := map[string]bool{}
 	var fns []map[string]interface{}
 	var lemmas []string
+	// a precondition is proved at the static call sites inside functions under contract (pre@ obligations)
+	// and is an assumption for every other caller: dynamic calls through interfaces and function values
+	// (closures handed to a walk), callers outside the module
+	preSites := map[string]int{}
+	for _, o := range obls {
+		if i := strings.Index(o.Name, "#pre@"); i >= 0 {
+			callee := o.Name[i+5:]
+			if j := strings.LastIndex(callee, "."); j >= 0 {
+				callee = callee[:j]
+			}
+			if j := strings.LastIndex(callee, "."); j >= 0 {
+				preSites[callee[:j]]++
+			}
+		}
+	}
 	for _, u := range units {
 		for _, t := range u.Trusted {
 			trusted[t] = true
@@ -387,6 +402,12 @@ func writeEvidence(path, prop, tier string, seed int, units []*UnitResult, obls,
 		if u.Kind == "lemma" {
 			lemmas = append(lemmas, u.Unit)
 			continue
+		}
+		if u.fc != nil {
+			for _, c := range u.fc.Requires {
+				short := u.fc.Name
+				trusted[fmt.Sprintf("precondition of %s: `%s` - an obligation at its static call sites in functions under contract (%d in this run), assumed for every other caller (interface and function-value calls, callers outside the module)", u.Unit, c.Src, preSites[short])] = true
+			}
 		}
 		n, d := 0, 0
 		for _, o := range u.Obls {
